@@ -13,11 +13,16 @@
     limit was raised since the last clear.  [rep k s] is what the API reports
     for counter [k] (num_dns_queries, num_blocked_filtering, ...); [wsum s f]
     sums [f] over the hours (cur - limit, cur].  [wf_hist]: the hour clock
-    never goes back and fits uint32; [init_ok]: first hour >= 8762 (so that
-    hour - limit - 1 does not wrap; real hours are about 5e5) and a valid
-    limit (1 hour .. 365 days). *)
+    never goes back and fits uint32, and the three steps of a reset ([OClearClose],
+    [OClearReopen], [OClearFinish]: clear() taken apart) come in their order
+    with only updates and flushes between them; [init_ok]: first hour >= 8762
+    (so that hour - limit - 1 does not wrap; real hours are about 5e5) and a
+    valid limit (1 hour .. 365 days).  What is stored and what is read is the
+    serialised unit ([ser]): name maps cut to their 100 largest counts, time
+    sum replaced by the whole-microsecond average times the count. *)
 From Coq Require Import ZArith List Bool.
-From AGH Require Import Model.Stats Proofs.Stats.
+From AGH Require Import Model.Stats Proofs.Stats Proofs.StatsExt.
+From AGH Require Base.Conc Proofs.StatsConc.
 Import ListNotations.
 Local Open Scope Z_scope.
 
@@ -108,7 +113,7 @@ Print Assumptions C09_daily_le_total.
 (** Close; New preserves the invariant with the same events; in the same hour
     every answer is unchanged. *)
 Theorem C09_restart : forall g id,
-  Inv g -> g_clock g <= id < max_id ->
+  Inv g -> g_clock g <= id < max_id -> g_phase g = PNormal ->
   Inv (gstep g (ORestart id)) /\
   g_ev (gstep g (ORestart id)) = g_ev g /\
   (id = cur_id (g_st g) ->
@@ -119,7 +124,7 @@ Print Assumptions C09_restart.
 
 (** ... and in a later hour it reads exactly like the hourly flush. *)
 Theorem C09_restart_later_hour : forall g id,
-  Inv g -> cur_id (g_st g) < id < max_id ->
+  Inv g -> cur_id (g_st g) < id < max_id -> g_phase g = PNormal ->
   load_units (restart (g_st g) id) = load_units (flush (g_st g) id) /\
   cur_id (restart (g_st g) id) = cur_id (flush (g_st g) id).
 Proof. exact restart_later_hour. Qed.
@@ -177,3 +182,183 @@ Theorem C09_negative_result_panics :
   update_panics (init 490000 (24 * ms_hour) true) (ex_e (-1)) = true.
 Proof. exact negative_result_panics. Qed.
 Print Assumptions C09_negative_result_panics.
+
+(** * The cut to the top 100 names and the average processing time *)
+
+(** Serialisation leaves the total and every category of a unit alone ... *)
+Theorem C09_cut_keeps_counters : forall k u, proj k (ser u) = proj k u.
+Proof. exact proj_ser. Qed.
+Print Assumptions C09_cut_keeps_counters.
+
+(** ... so every total and every series of the answer is a function of the
+    counters of the un-cut units ([load_units_raw]: stored units and the
+    current unit as it is in memory). *)
+Theorem C09_cut_leaves_totals_and_series : forall s,
+  let d := get_data s in
+  let us := load_units_raw s in
+  let ser_of f := series (d_days d) (cur_id s) (Z.of_nat (length us) / 24) (map f us) in
+  d_num d = zsum (map u_total us) /\ d_num_f d = zsum (map u_f us) /\
+  d_num_sb d = zsum (map u_sb us) /\ d_num_ss d = zsum (map u_ss us) /\
+  d_num_p d = zsum (map u_p us) /\ num_nf s = zsum (map u_nf us) /\
+  d_dns d = ser_of u_total /\ d_blocked d = ser_of u_f /\ d_sb d = ser_of u_sb /\ d_par d = ser_of u_p.
+Proof. exact cut_leaves_totals_and_series. Qed.
+Print Assumptions C09_cut_leaves_totals_and_series.
+
+(** Writing a unit and reading it back is idempotent (cut of a cut, average
+    of an average): a second Close; New in the same hour changes nothing more. *)
+Theorem C09_serialise_idempotent : forall u, ser (ser u) = ser u.
+Proof. exact ser_idem. Qed.
+Print Assumptions C09_serialise_idempotent.
+
+Theorem C09_cut_only_removes : forall m, incl (cut100 m) m.
+Proof. exact cut100_incl. Qed.
+Print Assumptions C09_cut_only_removes.
+
+(** TimeAvg is the whole-microsecond quotient of the hour ... *)
+Theorem C09_time_avg_bounds : forall u,
+  0 < u_total u -> 0 <= u_tsum u -> u_tsum u / u_total u < 4294967296 ->
+  time_avg u * u_total u <= u_tsum u < (time_avg u + 1) * u_total u.
+Proof. exact time_avg_bounds. Qed.
+Print Assumptions C09_time_avg_bounds.
+
+(** ... 0 for an hour whose average is below a microsecond (such an hour
+    counts in every total like any other: the theorems above do not look at
+    the time) ... *)
+Theorem C09_sub_microsecond_unit : forall u,
+  0 < u_total u -> 0 <= u_tsum u < u_total u -> time_avg u = 0.
+Proof. exact sub_microsecond_unit. Qed.
+Print Assumptions C09_sub_microsecond_unit.
+
+(** ... and the reported average is the mean of the non-zero hourly averages. *)
+Theorem C09_avg_time_between : forall us lo hi,
+  (forall u, In u us -> time_avg u <> 0 -> lo <= time_avg u <= hi) ->
+  zsum (map time_avg us) < 4294967296 -> 0 <= lo ->
+  (exists u, In u us /\ time_avg u <> 0) ->
+  lo <= avg_time us <= hi.
+Proof. exact avg_time_between. Qed.
+Print Assumptions C09_avg_time_between.
+
+Theorem C09_top100_example :
+  let h := many_domains 120 ++ [OUpdate {| e_res := 1; e_dom := 7; e_cli := 1; e_ups := []; e_time := 0 |}; OFlush 490001] in
+  let d := get_data (run (init 490000 (24 * ms_hour) true) h) in
+  d_num d = 121 /\ length (d_top_dom d) = 100%nat /\ existsb (fun p => (fst p =? 7) && (snd p =? 2)) (d_top_dom d) = true /\
+  zsum (d_dns d) = 121 /\ d_avg d = 0 /\ zsum (map snd (d_top_dom d)) = 101.
+Proof. exact top100_premises. Qed.
+Print Assumptions C09_top100_example.
+
+Theorem C09_avg_time_example :
+  let fast := OUpdate {| e_res := 2; e_dom := 3; e_cli := 1; e_ups := []; e_time := 0 |} in
+  let h := ex_all5 ++ [OFlush 490001; fast; fast; OFlush 490003; OUpdate (ex_e 1)] in
+  let d := get_data (run (init 490000 (24 * ms_hour) true) h) in
+  d_num d = 8 /\ d_avg d = 1500 /\ d_num_f d = 3.
+Proof. exact avg_time_premises. Qed.
+Print Assumptions C09_avg_time_example.
+
+(** * The reset: clear() taken apart *)
+
+(** Run without anything in between, its three steps are the atomic clear. *)
+Theorem C09_reset_steps_atomic : forall s id,
+  clear_finish (clear_reopen (clear_close s)) id = clear s id.
+Proof. exact reset_steps_atomic. Qed.
+Print Assumptions C09_reset_steps_atomic.
+
+(** A flush that finds the database pointer nil changes nothing and does not
+    stop the periodic flusher. *)
+Theorem C09_flush_while_closed : forall s id,
+  dbnil s = true -> flush s id = s /\ flush_cont s id = true.
+Proof. exact flush_while_closed. Qed.
+Print Assumptions C09_flush_while_closed.
+
+(** With updates and flushes of any kind while the file is closed, and only
+    updates and hour-preserving flushes between the re-opening and the last
+    step, nothing counted before or during the reset is left. *)
+Theorem C09_reset_clears_all : forall g h1 h2 id,
+  let g1 := grun (gstep g OClearClose) h1 in
+  let g2 := grun (gstep g1 OClearReopen) h2 in
+  let g3 := gstep g2 (OClearFinish id) in
+  all_harmless (g_st (gstep g1 OClearReopen)) h2 = true ->
+  (forall i k, g_ev g3 i k = 0) /\ db (g_st g3) = [] /\ cur (g_st g3) = empty_unit /\
+  cur_id (g_st g3) = id /\ dbnil (g_st g3) = false.
+Proof. exact reset_clears_all. Qed.
+Print Assumptions C09_reset_clears_all.
+
+(** Why the handler has to hold confMu (it does since 0c9114c; the lock-table
+    check below fails if it stops): with an hour-changing flush between the
+    re-opening and the last step, the unit being cleared lands in the new
+    database and is still reported. *)
+Theorem C09_reset_unlocked_refuted :
+  wf_hist 490000 reset_race_hist /\
+  let g := grun (ginit 490000 (24 * ms_hour) true) reset_race_hist in
+  g_phase g = PNormal /\ rep CTotal (g_st g) = 5 /\ g_ev g 490000 CTotal = 5 /\
+  api_stats (g_st g) <> None.
+Proof. exact reset_race_refuted. Qed.
+Print Assumptions C09_reset_unlocked_refuted.
+
+Theorem C09_reset_example :
+  let h := ex_all5 ++ [OClearClose; OFlush 490001; OUpdate (ex_e 1); OClearReopen; OUpdate (ex_e 2); OClearFinish 490001] in
+  wf_hist 490000 h /\
+  let g := grun (ginit 490000 (24 * ms_hour) true) h in
+  rep CTotal (g_st g) = 0 /\ cur_id (g_st g) = 490001 /\ db (g_st g) = [] /\
+  flush_cont (g_st g) 490002 = true /\ cur_id (flush (g_st g) 490002) = 490002.
+Proof. exact reset_clears_all_premises. Qed.
+Print Assumptions C09_reset_example.
+
+(** * Mutual exclusion, checked against the lock table of the current source *)
+
+Import Base.Conc Proofs.StatsConc.
+
+(** Every access site to the statistics state holds the field's guard (known
+    findings of C05 not excluded) ... *)
+Theorem C09_mutual_exclusion_sites :
+  forallb (Proofs.LockTable.access_ok_ro ro) stats_table = true /\
+  ro f_curr = false /\ ro f_limit = false /\ ro f_enabled = false /\ ro f_ignored = false.
+Proof. exact (conj stats_sites_guarded stats_state_is_mutable). Qed.
+Print Assumptions C09_mutual_exclusion_sites.
+
+(** ... holds exactly the statistics locks listed site by site in
+    [StatsConc.reqs] (Update, flush, flushDB, readers, configuration handlers,
+    clear from both handlers, Close), every listed site exists, the reset
+    handler is a root of the table ... *)
+Theorem C09_mutual_exclusion_table :
+  forallb site_listed stats_table = true /\
+  forallb (fun r => existsb (matches r) stats_table) reqs = true /\
+  reset_root_present = true.
+Proof. exact (conj stats_sites_as_listed (conj stats_reqs_present reset_is_a_root)). Qed.
+Print Assumptions C09_mutual_exclusion_table.
+
+(** ... every access to the mutable state is inside a confMu section (Close
+    apart), in write mode for every operation that changes the state. *)
+Theorem C09_mutual_exclusion_sections :
+  forallb (fun r => negb (existsb (Coq.Strings.String.eqb (r_field r)) mutable_fields) || is_close r ||
+                    holds (r_held r) confMu) reqs = true /\
+  forallb (fun r => negb (r_write r) || existsb (Coq.Strings.String.eqb (r_fn r)) writer_fns) reqs = true /\
+  forallb (fun r => negb (existsb (Coq.Strings.String.eqb (r_fn r)) writer_fns) ||
+                    negb (existsb (Coq.Strings.String.eqb (r_field r)) mutable_fields) ||
+                    holds_w (r_held r) confMu) reqs = true.
+Proof. exact (conj state_accesses_inside_confMu (conj writers_are_listed writers_hold_confMu_W)). Qed.
+Print Assumptions C09_mutual_exclusion_sections.
+
+(** Lifted by the generic theorems of the lock machine: the operations as
+    event lists follow the table (at every access exactly the locks of a
+    table entry); any number of them, in any interleaving, never reach a state
+    where two are about to touch the same field, one writing ... *)
+Theorem C09_mutual_exclusion : forall progs,
+  Forall (fun p => In p stats_ops) progs ->
+  forall s, reachable (init progs) s -> ~ race s.
+Proof. exact stats_ops_race_free. Qed.
+Print Assumptions C09_mutual_exclusion.
+
+(** ... nor a state where two of them are inside their confMu sections unless
+    both only read: any two operations of which one changes the statistics
+    state are serialised, which is what the sequential histories above need. *)
+Theorem C09_operations_serialised : forall progs,
+  Forall (fun p => In p (map (sections None) stats_ops)) progs ->
+  forall s, reachable (init progs) s -> ~ race s.
+Proof. exact stats_ops_serialised. Qed.
+Print Assumptions C09_operations_serialised.
+
+Theorem C09_mutual_exclusion_example :
+  forallb (conforms_tight stats_table []) stats_ops = true /\
+  conforms_tight stats_table [] [Acq currMu W; Rd f_curr; Wr f_curr; Rel currMu W] = false.
+Proof. exact (conj stats_ops_follow_table unlocked_update_rejected). Qed.
+Print Assumptions C09_mutual_exclusion_example.
